@@ -1,5 +1,5 @@
-(* C12: the composed 2-D operator (smooth the other axis for prewitt / sobel, difference along the axis, divide by the
-   spacing) is exact on affine fields at the points each scheme supports -- all shapes, all spacings. *)
+(* C12: 2-D affine fields and list lemmas about applying a line operator along y (the exactness theorems for the composed
+   2-D / 3-D operators are in C12ND3.v). *)
 From Coq Require Import ZArith List Field Ring Lia Bool.
 From DV Require Import Base.Field Base.FieldFacts Base.LinAlg Base.Tactics Model.BSplineBase Gen.BSpline Model.BSpline
   Gen.FlowDeriv Model.FiniteDiff Proofs.C14Tac Proofs.C14Eval Proofs.C12FD.
@@ -11,9 +11,6 @@ Context {K : fld}.
 (* f(y, x) = a + bx (x hx) + by (y hy) sampled on an ny x nx grid (tensor order [y][x]) *)
 Definition field2 (a bx by_ hx hy : K) (nx ny : nat) : list (list K) :=
   map (fun y => map (fun x => a + bx * (zn x * hx) + by_ * (zn y * hy)) (seq 0 nx)) (seq 0 ny).
-(* points at which prewitt / sobel smooth without touching the zero padding of the other axis *)
-Definition smooth_ok (m : fdmode) (n i : nat) : Prop :=
-  match m with Prewitt | Sobel => (1 <= i)%nat /\ (i + 1 < n)%nat | _ => (i < n)%nat end.
 End Field2.
 
 Section Proofs.
@@ -74,70 +71,4 @@ Proof. unfold field2. rewrite map_length, seq_length. reflexivity. Qed.
 Lemma field2_row0_len (a bx by_ hx hy : K) nx ny : (1 <= ny)%nat -> length (nth 0 (field2 a bx by_ hx hy nx ny) []) = nx.
 Proof. intro H. rewrite field2_row by lia. apply length_aff. Qed.
 
-(* d/dx: smooth along y (prewitt / sobel), difference along x *)
-Theorem dstep2_affine_x (m : fdmode) (a bx by_ hx hy : K) (nx ny x y : nat) : hx <> 0 ->
-  exact1 m nx x -> smooth_ok m ny y ->
-  nth x (nth y (dstep2 m 0 hx (field2 a bx by_ hx hy nx ny)) []) 0 = bx.
-Proof.
-  intros Hh Hx Hy.
-  assert (Hxn : (x < nx)%nat) by (destruct m; cbn in Hx; lia).
-  assert (Hyn : (y < ny)%nat) by (destruct m; cbn in Hy; lia).
-  unfold dstep2, along_x2. set (c := field2 a bx by_ hx hy nx ny).
-  assert (Lc : length c = ny) by apply length_field2.
-  assert (R0c : length (nth 0 c []) = nx) by (apply field2_row0_len; lia).
-  set (c' := along_y2 (smooth1 m) c).
-  assert (Lc' : length c' = ny).
-  { unfold c', along_y2. rewrite map_length, seq_length. rewrite R0c.
-    rewrite (nth_map_seq (fun i => smooth1 m (map (fun r => nth i r 0) c))) by lia.
-    rewrite length_smooth1, map_length. exact Lc. }
-  rewrite (nth_indep _ [] (fd1 m hx [])) by (rewrite map_length; lia).
-  rewrite (map_nth (fd1 m hx)).
-  assert (Row : nth y c' [] = aff_seq bx (a + by_ * (zn y * hy)) hx nx).
-  { apply (nth_ext _ _ 0 0).
-    - rewrite length_aff. apply length_along_y2_row; try exact R0c; try lia. apply length_smooth1.
-    - intros x' Hx'. unfold c' in Hx'. rewrite (length_along_y2_row (smooth1 m) c nx y) in Hx'
-        by (try apply length_smooth1; try exact R0c; lia).
-      unfold c'. rewrite (nth_along_y2 (smooth1 m) c nx x' y)
-        by (try apply length_smooth1; try exact R0c; lia).
-      unfold c. rewrite field2_col by exact Hx'. rewrite nth_aff by exact Hx'.
-      destruct m; cbn in Hy; try (cbn [smooth1]; rewrite nth_aff by lia; ring);
-      rewrite (smooth_affine_interior K Kf Kc) by lia; rewrite nth_aff by lia; ring. }
-  rewrite Row. apply fd1_affine_exact; assumption.
-Qed.
-
-(* d/dy: smooth along x (prewitt / sobel), difference along y *)
-Theorem dstep2_affine_y (m : fdmode) (a bx by_ hx hy : K) (nx ny x y : nat) : hy <> 0 ->
-  exact1 m ny y -> smooth_ok m nx x ->
-  nth x (nth y (dstep2 m 1 hy (field2 a bx by_ hx hy nx ny)) []) 0 = by_.
-Proof.
-  intros Hh Hy Hx.
-  assert (Hxn : (x < nx)%nat) by (destruct m; cbn in Hx; lia).
-  assert (Hyn : (y < ny)%nat) by (destruct m; cbn in Hy; lia).
-  unfold dstep2, along_x2. set (c := field2 a bx by_ hx hy nx ny).
-  assert (Lc : length c = ny) by apply length_field2.
-  assert (R0c : length (nth 0 c []) = nx) by (apply field2_row0_len; lia).
-  set (c' := map (smooth1 m) c).
-  assert (Lc' : length c' = ny) by (unfold c'; rewrite map_length; exact Lc).
-  assert (R0 : length (nth 0 c' []) = nx).
-  { unfold c'. rewrite (nth_indep _ [] (smooth1 m [])) by (rewrite map_length, Lc; lia).
-    rewrite (map_nth (smooth1 m)), length_smooth1. exact R0c. }
-  rewrite (nth_along_y2 (fd1 m hy) c' nx x y) by (try apply length_fd1; try exact R0; try lia).
-  assert (Col : colx x c' = aff_seq by_ (a + bx * (zn x * hx)) hy ny).
-  { apply (nth_ext _ _ 0 0).
-    - unfold colx. rewrite map_length, Lc', length_aff. reflexivity.
-    - intros y' Hy'. unfold colx in *. rewrite map_length, Lc' in Hy'.
-      rewrite (nth_indep _ 0 (nth x [] 0)) by (rewrite map_length, Lc'; exact Hy').
-      rewrite (map_nth (fun r => nth x r 0)). unfold c'.
-      rewrite (nth_indep _ [] (smooth1 m [])) by (rewrite map_length, Lc; exact Hy').
-      rewrite (map_nth (smooth1 m)). unfold c. rewrite field2_row by exact Hy'. rewrite nth_aff by exact Hy'.
-      destruct m; cbn in Hx; try (cbn [smooth1]; rewrite nth_aff by lia; ring);
-      rewrite (smooth_affine_interior K Kf Kc) by lia; rewrite nth_aff by lia; ring. }
-  unfold colx in Col. unfold colx. rewrite Col. apply fd1_affine_exact; assumption.
-Qed.
-
-(* the restriction for prewitt / sobel is necessary: on the boundary row y = 0 a constant-in-y field with slope bx in x
-   gets the derivative 3/4 bx (sobel): the property as stated (every grid point) fails for the zero-padded smoothing *)
-Theorem sobel_boundary_refuted :
-  nth 1 (nth 0 (dstep2 Sobel 0 1 (field2 (K:=K) 0 1 0 1 1 3 3)) []) 0 = of_Q 3 4.
-Proof. fcbv. field. refold K. repeat split; nz Kc. Qed.
 End Proofs.
